@@ -42,6 +42,14 @@ PLAN = {
  "C08s_m4": [("C08", ["--only", "p256"])],
  "C09s_m1": [("C11", ["--only", "zz"])], "C09s_m2": [("C11", ["--only", "zz"])], "C09s_m3": [("C09", ["--only", "jq255s"])], "C09s_m4": [("C09", ["--only", "gls254"])],
  "C17_m1": [("C17", ["--only", "step"])],
+ "C03r_m1": [("C03", [])], "C03r_m2": [("C03", [])], "C03r_m3": [("C03", [])], "C03r_m4": [("C03", [])],
+ "C06r_m1": [("C06", ["--only", "secp256k1"])], "C06r_m2": [("C06", ["--only", "p256"])], "C06r_m3": [("C05", ["--only", "gf448"]), ("C06", ["--only", "decaf448"])],
+ "C06r_m4": [("C06", ["--only", "decaf448"])],
+ "C10r_m1": [("C10", [])], "C10r_m2": [("C10", [])], "C10r_m3": [("C10", ["--only", "helper"])],
+ "C19r_m1": [("C06", ["--only", "ed25519"])], "C19r_m2": [("C10", []), ("C19", ["--only", "jq255s"])], "C19r_m3": [("C08", ["--only", "secp256k1"])],
+ "C19r_m4": [("C19", ["--only", "gls254"]), ("C09", ["--only", "gls254"])],
+ "C20r_m1": [("C20", ["--only", "jq255s"])], "C20r_m2": [("C20", ["--only", "gfsecp256k1"])], "C20r_m3": [("C20", ["--only", "lookup"]), ("C20", [])],
+ "C20r_m4": [("C20", ["--only", "sc448"])],
  "C01r_m1": [("C01", [])], "C01r_m2": [("C01", ["--only", "gf25519"])], "C01r_m3": [("C01", ["--only", "gfsecp256k1"])],
  "C01r_m4": [("C01", ["--only", "gf448"])],
  "C04r_m1": [("C11", ["--only", "zz"])], "C04r_m2": [("C03", [])], "C04r_m3": [("C11", ["--only", "secp256k1.split_theta"])], "C04r_m4": [("C03", [])],
